@@ -75,6 +75,17 @@ FUNCS = {
     "with_entries": ("withEntriesOpType", "WITH_ENTRIES", 8, False, (1,)),
     "del": ("deleteChildOpType", "DELETE", 5, False, (1,)),
 }
+# every one-argument (prefix) operator of the table with a lexeme: name -> (type, spec rank, number of ;-separated arguments)
+PREFIX_OPS = {
+    "all_c": ("ALL_CONDITION", 8, 1), "any_c": ("ANY_CONDITION", 8, 1), "capture": ("CAPTURE", 8, 1), "collect": ("COLLECT", 8, 1),
+    "contains": ("CONTAINS", 8, 1), "error": ("ERROR", 8, 1), "format_datetime": ("FORMAT_DATE_TIME", 8, 1), "has": ("HAS", 8, 1),
+    "join": ("JOIN", 8, 1), "match": ("MATCH", 8, 1), "setpath": ("SET_PATH", 8, 2), "sub": ("SUBSTR", 8, 2), "test": ("TEST", 8, 1),
+    "tz": ("TIMEZONE", 8, 1), "with_dtf": ("WITH_DATE_TIME_FORMAT", 8, 2), "with_entries": ("WITH_ENTRIES", 8, 1),
+    "delpaths": ("DEL_PATHS", 9, 1), "eval": ("EVAL", 9, 1), "explode": ("EXPLODE", 9, 1), "filter": ("FILTER", 9, 1), "group_by": ("GROUP_BY", 9, 1),
+    "load": ("LOAD", 9, 1), "load_str": ("LOAD_STRING", 9, 1), "map": ("MAP", 9, 1), "map_values": ("MAP_VALUES", 9, 1), "omit": ("OMIT", 9, 1),
+    "pick": ("PICK", 9, 1), "select": ("SELECT", 9, 1), "sort_by": ("SORT_BY", 9, 1), "sort_keys": ("SORT_KEYS", 9, 1), "split": ("SPLIT", 9, 1),
+    "unique_by": ("UNIQUE_BY", 9, 1), "with": ("WITH", 9, 2), "del": ("DELETE", 5, 1),
+}
 # nullary words: name -> (go var, type, rank, cpt)
 WORDS = {
     "length": ("lengthOpType", "LENGTH", 8, False),
@@ -646,6 +657,64 @@ def run(chk):
     chk.extra["tree_cases"] = len(cases)
     chk.extra["tree_mismatches"] = nviol
 
+    # ---------------------------------------------------------------- prefix function DIRECTLY followed by a suffix / operator
+    # f(x).b  f(x)[0]  f(x) + y ...: by the table the call binds like any operator of its class, so a follower that
+    # binds at least as tight is taken INTO the call (del(.a).b = del((.a).b), has("a")[0] = has("a"[0])).
+    # Expected trees by precedence climbing over the SPEC ranks (equal rank nests right; TRAVERSE_ARRAY takes only its bracket).
+    fol_cases = []   # (text, expected)
+    A_t, A_x = ".a", ser("TRAVERSE_PATH", "a")
+
+    def climb(lhs, ops, i, minr):
+        while i < len(ops) and ops[i][1] >= minr:
+            typ, r, val, atom = ops[i]
+            i += 1
+            if typ == "TRAVERSE_ARRAY":
+                rhs = atom
+            else:
+                rhs, i = climb(atom, ops, i, r)
+            lhs = ser(typ, val, lhs, rhs)
+        return lhs, i
+
+    followers = [([".b"], [("SHORT_PIPE", 7, "", ser("TRAVERSE_PATH", "b"))]),
+                 (["[", "0", "]"], [("TRAVERSE_ARRAY", 8, "", ser("COLLECT", "", "_", ser("VALUE", "0")))]),
+                 (["[", "]"], [("TRAVERSE_ARRAY", 8, "", ser("COLLECT", "", "_", ser("EMPTY")))]),
+                 ([".b", "[", "1", "]"], [("SHORT_PIPE", 7, "", ser("TRAVERSE_PATH", "b")), ("TRAVERSE_ARRAY", 8, "", ser("COLLECT", "", "_", ser("VALUE", "1")))]),
+                 (["[", "0", "]", ".b"], [("TRAVERSE_ARRAY", 8, "", ser("COLLECT", "", "_", ser("VALUE", "0"))), ("SHORT_PIPE", 7, "", ser("TRAVERSE_PATH", "b"))])]
+    for sym in BINOPS:
+        if sym == "*=":
+            continue
+        _, typ, (lo, hi), val = BINOPS[sym]
+        followers.append(([sym, ".c"], [(typ, lo, val, ser("TRAVERSE_PATH", "c"))]))
+        followers.append(([".b", sym, ".c"], [("SHORT_PIPE", 7, "", ser("TRAVERSE_PATH", "b")), (typ, lo, val, ser("TRAVERSE_PATH", "c"))]))
+    for fname, (ftyp, frank, nargs) in PREFIX_OPS.items():
+        argtxt, argtree = ([A_t], A_x) if nargs == 1 else ([A_t, ";", "2"], ser("BLOCK", "", A_x, ser("VALUE", "2")))
+        for ftoks, fops in followers:
+            inner, i = climb(argtree, fops, 0, frank)
+            tree, i = climb(ser(ftyp, "", "_", inner), fops, i, 0)
+            toks = [fname, "("] + argtxt + [")"] + ftoks
+            tight = ""
+            for k, tk in enumerate(toks):
+                need_sp = k > 0 and ((toks[k - 1][0] == "." and tk[0] not in ";}{:[],|.()=!") or (toks[k - 1][-1].isalnum() and tk[0].isalnum())
+                                     or tk in BINOPS and tk not in (",", ";", ":") or toks[k - 1] in BINOPS and toks[k - 1] not in (",", ";", ":"))
+                tight += (" " if need_sp else "") + tk
+            fol_cases.append((" ".join(toks), tree))
+            fol_cases.append((tight, tree))
+            if thorough:
+                fol_cases.append((" \n".join(toks), tree))
+    fresp = vlib.yqh_parallel(parse_reqs([c[0] for c in fol_cases]))
+    nfol = 0
+    fol_impl = []
+    for (text, ex), r in zip(fol_cases, fresp):
+        im = impl_class(r)
+        fol_impl.append(im)
+        chk.count(("follow", text), nontrivial=True, sample={"expr": text, "tree": im} if text.startswith("del(") and "[" in text else None)
+        dist["follow"] = dist.get("follow", 0) + 1
+        if im != ex:
+            nfol += 1
+            if nfol <= 4:
+                chk.violation({"kind": "tree", "expr": text, "spelling": "prefix-function-then-suffix", "layout": "space/tight", "expected": ex, "impl": im}, True,
+                              "a prefix function followed directly by a suffix/operator is not grouped as the precedence relation says")
+    chk.extra["prefix_follow_cases"] = len(fol_cases)
     T["impl_trees"] = round(time.time() - chk.t0, 1)
     # ---------------------------------------------------------------- model correspondence (raw tokens -> tree)
     seen = {}
@@ -662,6 +731,8 @@ def run(chk):
     for i, c in enumerate(cases):
         # quick tier: the exhaustive operator-pair families go to the model one in three (all of them to the implementation)
         add_model(c[4], impl[i], thorough or terms[c[0]][1] not in ("pair", "opfn") or i % 5 == 0)
+    for (text, ex), im in zip(fol_cases, fol_impl):
+        add_model(text, im)
 
     # ---------------------------------------------------------------- malformed inputs: must be rejected
     rej = []   # (text, lexemes, kind)
